@@ -98,7 +98,7 @@ def _clean_spec(spec):
 
 
 _SUP_LABELS = LABELS + ['explain', 'set_correct', 'log', 'Feedback', 'gently']
-_SUP_CATS = CATEGORY_POOL + ['parser', 'verifier', 'analyzer', 'ALGORITHMIC']
+_SUP_CATS = CATEGORY_POOL + ['parser', 'verifier', 'analyzer', 'ALGORITHMIC', 'Analyzer', 'PARSER', 'Verifier']
 _SUP = st.one_of(
     st.fixed_dictionaries({'category': st.sampled_from(_SUP_CATS), 'label': st.just(True), 'fields': st.none()}),
     st.fixed_dictionaries({'category': st.sampled_from(_SUP_CATS), 'label': st.sampled_from(_SUP_LABELS),
